@@ -317,6 +317,9 @@ def suite_multiround(tier: str, seed: int, mult: int) -> SuiteResult:
     try:
         for k in range((25 if tier == "quick" else 300) * mult):
             case = gen_mr_case(rng)
+            if k < 4:
+                # forced: the split step with the DEFAULT single midsection round (and with two)
+                case.update(split=True, mids=1 if k < 3 else 2)
             case["final"] = None  # the command has no separate final criterion
             case["dup"] = None    # the command reads a directory: every input is a distinct file
             case["cleanup"] = rng.random() < 0.7
